@@ -94,6 +94,13 @@ def cases(tier, seed):
                           (["-t", "0,0"], "hdd")):
         q.append({"engine": "e2e", "tree": "small300", "threads": threads, "extra": [], "nofile": 100, "disk": disk, "timeout": 90,
                   "budget_need_not_fill": True})
+    # one file with MANY hard links (more names than the task throttle has permits: 8 per thread) next to a copy of it:
+    # a task is one file, however many names it has - the run must end, every name must be listed
+    for links, threads, disk in ((9, ["-t", "1"], "ssd"), (17, ["-t", "2"], "ssd"), (40, ["-t", "1"], "hdd"), (9, [], "unknown"),
+                                 (130, ["-t", "default:1,1"], "ssd"), (33, ["-t", "1"], "ssd")):
+        for extra in ([], ["--match-links"]):
+            q.append({"engine": "e2e", "tree": "links%d" % links, "threads": threads, "extra": extra, "nofile": 100, "disk": disk,
+                      "timeout": 60, "budget_need_not_fill": True})
     if tier == "quick":
         return q
     th = list(q)
@@ -121,10 +128,18 @@ def evaluate_e2e(case):
     complete (every duplicate pair found, nothing dropped)."""
     n = 300 if case["tree"] == "small300" else 120
     size = 5000 if case["tree"] == "small300" else 70000
+    links = int(case["tree"][5:]) if case["tree"].startswith("links") else 0
     viol = []
     with C.Scratch() as sc:
         tree = []
-        for i in range(n):
+        if links:
+            # f000 with `links` names in all, f001 a copy of it; two more pairs
+            n, size = 6, 5000
+            for i in range(n):
+                tree.append({"p": "r/d%d/f%03d" % (i % 7, i), "k": "file", "c": ["base", size, i // 2 + 1]})
+            for j in range(1, links):
+                tree.append({"p": "r/d%d/f000_l%03d" % (j % 7, j), "k": "hard", "to": "r/d0/f000"})
+        for i in range(0 if links else n):
             tree.append({"p": "r/d%d/f%03d" % (i % 7, i), "k": "file", "c": ["base", size, i // 2 + 1]})
         C.make_tree(sc.tree, tree)
         args = ["group", "--min", "0", "-f", "json"] + case["threads"] + case["extra"] + ["r"]
@@ -152,6 +167,8 @@ def evaluate_e2e(case):
             rep = C.parse_json_report(res["out"])
             got = sorted(sorted(os.path.basename(C.u(p)) for p in g["paths"]) for g in rep.groups)
             exp = sorted(["f%03d" % i, "f%03d" % (i + 1)] for i in range(0, n, 2))
+            if links:
+                exp[0] = sorted(exp[0] + ["f000_l%03d" % j for j in range(1, links)])
             if got != exp:
                 viol.append(dict(feat, kind="files_dropped", detail="%s: %d of %d pairs reported; stderr %s" % (
                     ctx, len(got), len(exp), res["err"][-200:])))
